@@ -118,40 +118,16 @@ def cases(tier):
             out.append({"id": f"tree/{_enc(e)}/{ty}", "what": "tree", "expr": _tolist(e), "typing": ty})
     for k, head in enumerate(["ad", "", "ADD", "mult", "kron ", "exp", 3, None]):
         out.append({"id": f"badhead/{k}", "what": "badhead", "head": head})
-    out.append({"id": "crosshair/unknown-head", "what": "crosshair"})
+    out.append({"id": "crosshair/unknown-head", "what": "crosshair", "which": "main"})
+    out.append({"id": "crosshair/reachability-twin", "what": "crosshair", "which": "twin"})
     return out
 
 
-def _crosshair(B):
+def _crosshair(B, which="main"):
     """engine E2: CrossHair explores the interpreter's dispatch with a SYMBOLIC head string (len <= 6)"""
-    import os
-    import subprocess
-    import sys
-
-    here = os.path.dirname(os.path.dirname(os.path.abspath(__file__)))
-    f = os.path.join(here, "ch", "c16_head.py")
-    env = dict(os.environ)
-    env["PYTHONPATH"] = here
-    try:
-        p = subprocess.run([sys.executable, "-m", "crosshair", "check", "--report_all", "--per_condition_timeout", "60", f],
-                           capture_output=True, text=True, timeout=300, env=env)
-        out = p.stdout + p.stderr
-    except Exception as e:  # noqa
-        out = f"crosshair could not be run: {e}"
-    lines = [ln for ln in out.splitlines() if "c16_head.py" in ln]
-    main = [ln for ln in lines if ":15:" in ln]
-    twin = [ln for ln in lines if ":28:" in ln]
-    if "No module named crosshair" in out or "could not be run" in out:
-        from symx.explore import Unsupported
-
-        raise Unsupported("crosshair-tool is not installed in the overlay venv")
-    B.require_structural(bool(twin) and "error" in twin[0],
-                         f"C16/crosshair: reachability twin was not refuted (vacuous precondition?): {twin[:1]}")
-    if main and "error" in main[0]:
-        B.require_structural(False, f"C16/crosshair: counterexample for 'an unknown head raises': {main[0][-200:]}")
-    else:
-        B.require_structural(bool(main) and "Confirmed over all paths" in main[0],
-                             f"C16/crosshair: not confirmed over all paths: {(main or lines or [out[-300:]])[0][-200:]}")
+    if which == "twin":
+        return cm.crosshair_condition(B, "c16_head.py", "reachability_twin", expect="refuted")
+    return cm.crosshair_condition(B, "c16_head.py", "unknown_head_raises")
 
 
 def _tolist(e):
@@ -168,7 +144,7 @@ def scenario(B, case):
     from photon_weave.extra.expression_interpreter import interpreter
 
     if case["what"] == "crosshair":
-        return _crosshair(B)
+        return _crosshair(B, case.get("which", "main"))
     if case["what"] == "badhead":
         raised = False
         try:
